@@ -1,9 +1,9 @@
 SPECIFICATION Spec
 CONSTANTS
   MaxLen = 2
-  Srcs = {"ready_val", "after_val", "after_err", "on_after_val", "run_val", "run_throw", "task_val", "sched_val", "lcontract_val"}
+  Srcs = {"ready_val", "ready_exc", "after_val", "after_err", "on_after_val", "run_val", "run_throw", "task_val", "sched_val", "lcontract_val"}
   Atts = {"inline", "e1", "e2", "inh"}
-  Args = {"V", "E", "R"}
+  Args = {"V", "E", "X", "R"}
   Behs = {"val", "throw", "fut_pending", "task_make"}
   Rejects = {0, 1, 9}
   Starts = {"to_future", "to_future_e2", "detach_e2"}
